@@ -274,7 +274,8 @@ func runC13Case(w *caseWriter, id string, d pkgDesc, st *c13Stats, rng *rand.Ran
 }
 
 // names no packager is registered under, most of them one edit away from one that is
-var nearMisses = []string{"foo", "DEB", "Deb", "RPM", " rpm", "apk ", "arch", "archlinux2", "Ipk", "tar.gz", "debian"}
+// (the last five are pieces of the packagers' conventional file extensions: a format is named by its registered name only)
+var nearMisses = []string{"foo", "DEB", "Deb", "RPM", " rpm", "apk ", "arch", "archlinux2", "Ipk", "tar.gz", "debian", "zst", "tar.zst", "pkg.tar.zst", ".deb", ".zst"}
 
 func cmdC13(tier string, seed int64, out, statsOut, replay string) {
 	_, cleanup := pkgWorkdir()
@@ -377,6 +378,9 @@ func cmdC13(tier string, seed int64, out, statsOut, replay string) {
 		// an override block that spells a list out as EMPTY: an empty value replaces nothing, neither that list nor any other
 		"name: x\narch: amd64\nversion: 1.0.0\ndepends: [base-dep]\nreplaces: [old]\nconflicts: [c1]\nprovides: [p1]\ncontents:\n  - {src: a, dst: /a}\ndeb:\n  breaks: [b1]\n  triggers:\n    interest: [t1]\noverrides:\n  deb:\n    depends: []\n  rpm:\n    conflicts: []\n    replaces: [newer]\n  apk:\n    provides: []\n    suggests: []\n  ipk:\n    contents: []\n    recommends: [r]\n  archlinux:\n    replaces: []\n    conflicts: []\n    depends: []\n",
 		"name: x\narch: amd64\nversion: 1.0.0\ndepends: [base-dep]\ndeb:\n  breaks: [b1]\n  predepends: [pd]\nipk:\n  tags: [t]\n  predepends: [ipd]\noverrides:\n  deb:\n    deb:\n      breaks: []\n    recommends: []\n  ipk:\n    ipk:\n      tags: []\n    depends: []\n",
+		// custom-field maps that are present but EMPTY in the base, filled by override blocks: each format sees its own block only,
+		// in whatever order the formats are asked for
+		"name: x\narch: amd64\nversion: 1.0.0\ndeb:\n  fields: {}\nipk:\n  fields: {}\noverrides:\n  deb:\n    deb:\n      fields: {X-Deb: over}\n  rpm:\n    depends: [r]\n    deb:\n      fields: {X-From-Rpm-Block: leak}\n  ipk:\n    ipk:\n      fields: {X-Ipk: over}\n  apk:\n    ipk:\n      fields: {X-From-Apk-Block: leak}\n",
 	} {
 		runC13Case(w, fmt.Sprintf("edge-%d", i), pkgDesc{YAML: d}, st, rng)
 	}
